@@ -213,7 +213,7 @@ Section Oracles.
     cbn [spec]. unfold decode_o, decode in E. destruct doc; try discriminate.
     - inversion E; subst. cbn. apply fields_from_zero.
     - destruct (mapM _ (schema_of ty)) as [r | |] eqn:Em; try discriminate. cbn in E. inversion E; subst.
-      rewrite obj_eqb_refl. cbn [andb]. rewrite (fields_from_dec _ _ _ Em). apply orb_true_r.
+      cbn [andb]. rewrite obj_eqb_refl. cbn [andb]. rewrite (fields_from_dec _ _ _ Em). apply orb_true_r.
   Qed.
 End Oracles.
 
@@ -266,6 +266,26 @@ Proof.
   intro Hin. rewrite (fold_variant_refl (keys reg) k Hin) in Hv. discriminate.
 Qed.
 
+Lemma string_in_true x l : In x l -> string_in x l = true.
+Proof.
+  intros H. destruct (string_in x l) eqn:E; [reflexivity |]. exfalso. exact (string_in_false x l E H).
+Qed.
+
+(* what the merged object holds under a name outside [names] was in the custom map *)
+Lemma merge_adds_nothing names reg cl k :
+  NoDup (keys reg) -> (forall x, In x (keys reg) -> In x names) ->
+  In k (keys (merge reg cl)) ->
+  string_in k names || option_eqb json_eqb (lookup k cl) (lookup k (merge reg cl)) = true.
+Proof.
+  intros Hnd Hsub Hin. destruct (string_in k names) eqn:Es; [reflexivity |]. cbn [orb].
+  apply string_in_false in Es.
+  assert (Hr : lookup k reg = None) by (apply lookup_not_in; intro Hk; apply Es, Hsub, Hk).
+  destruct (lookup k (merge reg cl)) as [v |] eqn:El.
+  - rewrite lookup_merge in El by exact Hnd. rewrite Hr in El.
+    destruct (fold_variant (keys reg) k); [discriminate |]. rewrite El. apply opt_json_eqb_refl.
+  - exfalso. exact (lookup_none_not_in _ _ El Hin).
+Qed.
+
 Lemma keep_or_read_sim s oj s' : keep_or_read s oj = Ok s' -> String.eqb s "" || String.eqb s s' = true.
 Proof.
   unfold keep_or_read. destruct (String.eqb s ""); [reflexivity |].
@@ -290,6 +310,9 @@ Proof.
     destruct (fold_variant actor_names k) eqn:Ek; [reflexivity |]. cbn [orb].
     rewrite (lookup_merge_other actor_names);
       [apply opt_json_eqb_refl | apply actor_pairs_nodup | intros x; apply actor_pairs_keys | exact Ek].
+  - apply forallb_forall. intros [k j] Hin. cbn [fst snd].
+    apply merge_adds_nothing; [apply actor_pairs_nodup | intros x; apply actor_pairs_keys |].
+    unfold keys. change k with (fst (k, j)). apply in_map, Hin.
   - destruct act as [p |]; [| reflexivity].
     destruct (norm_actor p) as [q | |] eqn:Ep; try discriminate. cbn in Ea. inversion Ea; subst.
     apply IH. exact Ep.
@@ -493,12 +516,15 @@ Section Round.
     unfold decode_o. fold rfc lt lp.
     rewrite (roundtrip rfc lt lp sch pv claims (schema_nodup ty) (schema_fold_distinct ty) Hwfp). unfold norm.
     destruct (mapM (norm_field rfc lt lp claims) (combine sch pv)) as [vs' | |] eqn:Em; cbn [bind res_opt].
-    - rewrite obj_eqb_refl. cbn [andb]. apply andb_true_iff. split.
+    - rewrite obj_eqb_refl. cbn [andb]. apply andb_true_iff. split; [apply andb_true_iff; split |].
       + apply Hrt. eapply fields_rt_norm; [| now apply (vals_wf_length lt) | exact Em].
         intros f v Hin. apply lookup_encode_reg; [apply schema_nodup | apply schema_fold_distinct | exact Hin].
       + apply forallb_forall. intros [k j] Hin. cbn [fst snd].
         destruct (fold_variant (map fname sch) k) eqn:Ek; [reflexivity |]. cbn [orb].
         rewrite lookup_encode_custom; [apply opt_json_eqb_refl | apply schema_nodup | exact Ek].
+      + apply forallb_forall. intros [k j] Hin. cbn [fst snd]. unfold encode.
+        apply merge_adds_nothing; [apply reg_pairs_nodup, schema_nodup | intros x; apply reg_pairs_keys |].
+        unfold keys. change k with (fst (k, j)). apply in_map, Hin.
     - destruct (unset_collision sch vals claims) eqn:Eu; [reflexivity |].
       destruct (any_actor_collision vals) eqn:Ea; [reflexivity |].
       destruct (norm_fields_ok claims sch pv (Hcol eq_refl) (Hacol eq_refl)) as [vs Hvs]. congruence.
@@ -592,6 +618,76 @@ Proof.
   - apply spec_model_decK.
   - reflexivity.
 Qed.
+
+(* ---------- delegation chains: parties may repeat ---------- *)
+Lemma lookup_some_in k o v : lookup k o = Some v -> In (k, v) o.
+Proof.
+  induction o as [| [k' v'] r IH]; cbn [lookup]; [discriminate |].
+  destruct (String.eqb k k') eqn:E.
+  - intros H. inversion H; subst. apply seqb_eq in E. subst. left. reflexivity.
+  - intros H. right. apply IH, H.
+Qed.
+
+Lemma plain_lookup_none c k :
+  forallb (fun kv => negb (fold_variant actor_names (fst kv))) c = true ->
+  In k actor_names -> lookup k c = None.
+Proof.
+  intros Hp Hk. destruct (lookup k c) as [v |] eqn:E; [| reflexivity].
+  apply lookup_some_in in E. rewrite forallb_forall in Hp. specialize (Hp _ E). cbn [fst] in Hp.
+  rewrite (fold_variant_refl actor_names k Hk) in Hp. discriminate.
+Qed.
+
+Lemma keep_or_read_none s : keep_or_read s None = Ok s.
+Proof.
+  unfold keep_or_read. destruct (String.eqb s "") eqn:E; [| reflexivity].
+  apply seqb_eq in E. subst. reflexivity.
+Qed.
+
+Lemma norm_actor_plain : forall a, actor_plain a = true ->
+  exists n, norm_actor a = Ok n /\ chain_ids n = chain_ids a.
+Proof.
+  induction a as [act iss sub cl IH] using actor_ind'. intros Hp.
+  cbn [actor_plain] in Hp. apply andb_true_iff in Hp as [Hc Hact].
+  cbn [norm_actor]. rewrite enc_actor_eq.
+  rewrite (plain_lookup_none cl "iss" Hc) by (unfold actor_names; cbn; tauto).
+  rewrite (plain_lookup_none cl "sub" Hc) by (unfold actor_names; cbn; tauto).
+  rewrite (plain_lookup_none cl "act" Hc) by (unfold actor_names; cbn; tauto).
+  rewrite !keep_or_read_none.
+  destruct act as [p |].
+  - destruct (IH Hact) as [n [Hn Hids]]. rewrite Hn. cbn [bind].
+    eexists. split; [reflexivity |]. cbn [chain_ids]. rewrite Hids. reflexivity.
+  - cbn [dec_opt bind]. eexists. split; reflexivity.
+Qed.
+
+(* Marshal writes every (finite) chain; Unmarshal gives back a chain of the same
+   length with the same parties in the same order and every custom claim of
+   every level - whether or not a party occurs more than once *)
+Lemma actor_chain_lossless : forall a, actor_plain a = true ->
+  exists a', dec_actor (enc_actor a) = Ok a' /\ chain_ids a' = chain_ids a /\ actor_sim a a' = true.
+Proof.
+  intros a Hp. destruct (norm_actor_plain a Hp) as [n [Hn Hids]].
+  exists n. rewrite actor_roundtrip. repeat split; [exact Hn | exact Hids | apply actor_sim_norm, Hn].
+Qed.
+
+Definition ex_chain_aba : actor :=
+  Actor (Some (Actor (Some (Actor None "https://issuer.example.com" "svc-a" []))
+                     "https://issuer.example.com" "svc-b" [("role", JStr "broker")]))
+        "https://issuer.example.com" "svc-a" [("role", JStr "front")].
+
+Definition ids_eqb : list (string * string) -> list (string * string) -> bool :=
+  list_eqb (fun p q => String.eqb (fst p) (fst q) && String.eqb (snd p) (snd q)).
+
+Definition ex_chain_back : list (string * string) :=
+  match dec_actor (enc_actor ex_chain_aba) with Ok a' => chain_ids a' | _ => [] end.
+
+(* the first and the third actor are the same party; the decoded chain is
+   svc-a, svc-b, svc-a again *)
+Example actor_chain_repeats_nonvacuous :
+  actor_plain ex_chain_aba = true /\
+  List.nth_error (chain_ids ex_chain_aba) 0 = List.nth_error (chain_ids ex_chain_aba) 2 /\
+  ids_eqb ex_chain_back (chain_ids ex_chain_aba) = true /\
+  List.length ex_chain_back = 3.
+Proof. vm_compute. repeat split. Qed.
 
 (* ---------- non-vacuity ---------- *)
 Definition ex_oracles : oracles :=
